@@ -94,24 +94,33 @@ def r3(c):
     b = P.fn(PARSE)
     c.saw(b, len(b.calls()))
     facts = q.cmp_facts(b)
-    rle = one(b.calls(RB + '::read_u16_le'), 'read_u16_le (received CRC)')
     fin = one([cs for cs in b.calls() if cs.callee.endswith('::finalize')], 'digest.finalize()')
     ups = [cs for cs in b.calls() if cs.callee.endswith('::update')]
+    pdu_reads = [cs for cs in b.calls(RB + '::read') if q.is_name(b, cs.args[0], 'cursor')]
+    crc_reads = [cs for cs in b.calls(RB + '::read_u16_le', RB + '::read_u8', RB + '::read_u16_be') if q.is_name(b, cs.args[0], 'cursor') and pdu_reads and b.dominates(pdu_reads[0].ret, cs.node)]
     xs = [x for x in q.exits(b) if x['kind'] == 'agg' and x['variant'] == 'Ok' and q.agg_variant_of(b, x['rv']['a'][0]) == ('core::option::Option', 'Some')]
     c.ob('frame-exits', len(xs) == 1, 'there is one Ok(Some(frame)) exit', str(len(xs)), loc_of(b))
+    c.ob('trailer-read', 1 <= len(crc_reads) <= 2 and all(q.outcomes(b, cs).get('success') for cs in crc_reads), 'the CRC trailer is read (checked) from the cursor after the PDU', '%d reads after the PDU' % len(crc_reads), loc_of(b))
+    rle = crc_reads[0] if crc_reads else None
 
     def is_recv(o):
-        s = q.sem(b, o)
-        return s.kind == 'call' and s.cs is rle and s.checked
+        cl = b.op_closure(o)
+        return any(y[0] == 'call' and any(y[2] == cs.block for cs in crc_reads) for y in cl) and not any(y[0] == 'call' and y[2] == fin.block for y in cl)
 
     def is_exp(o):
-        s = q.sem(b, o)
-        return s.kind == 'call' and s.cs is fin
+        cl = b.op_closure(o)
+        return any(y[0] == 'call' and y[2] == fin.block for y in cl)
+    crc_facts = [f for f in facts if f[1] in ('eq', 'ne') and ((is_recv(f[2]) and is_exp(f[3])) or (is_recv(f[3]) and is_exp(f[2])))]
     for x in xs:
-        c.ob('crc-equal', q.has_fact(b, x['node'], 'eq', is_recv, is_exp, facts), 'the frame exit carries received_crc == expected_crc', '', loc_of(b, x['node'][1]))
+        eqs = [f for f in crc_facts if f[1] == 'eq' and q.dom(b, f[0], x['node'])]
+        leaks = [f for f in crc_facts if f[1] == 'ne' and (x['node'] in b.reach_set(f[0]))]
+        c.ob('crc-equal', bool(eqs) and not leaks, 'the frame exit is dominated by received CRC == computed CRC, and no mismatch edge of any CRC comparison reaches it',
+             '%d equality facts dominate, %d mismatch edges leak' % (len(eqs), len(leaks)), loc_of(b, x['node'][1]))
+    whole = [cs for cs in crc_reads if cs.is_(RB + '::read_u16_le')]
+    c.ob('crc-little-endian', len(whole) == 1 or len(crc_reads) == 2, 'the trailer is taken low byte first (read_u16_le, or two single bytes)', str([cs.callee.rsplit('::', 1)[-1] for cs in crc_reads]), loc_of(b))
     # the error on the other edge
     errs = [(i, s) for i, s in b.aggregates('rodbus::error::FrameParseError') if s['rv']['variant'] == 'CrcValidationFailure']
-    c.ob('crc-error', len(errs) == 1 and q.has_fact(b, ('b', errs[0][0]), 'ne', is_recv, is_exp, facts), 'a mismatch yields FrameParseError::CrcValidationFailure', '%d' % len(errs), loc_of(b))
+    c.ob('crc-error', len(errs) == 1 and any(f[1] == 'ne' and q.dom(b, f[0], ('b', errs[0][0])) for f in crc_facts), 'a mismatch yields FrameParseError::CrcValidationFailure', '%d' % len(errs), loc_of(b))
     # digest inputs: [destination.value()] then frame.payload()
     ok = len(ups) == 2
     if ok:
@@ -125,7 +134,7 @@ def r3(c):
     # the payload digested is the data just read for this frame
     rd = [cs for cs in b.calls(RB + '::read') if q.is_name(b, cs.args[0], 'cursor')]
     st = b.calls('rodbus::common::frame::Frame::set')
-    okp = len(rd) == 1 and len(st) == 1 and q.sem(b, st[0].args[1]).kind == 'call' and q.sem(b, st[0].args[1]).cs is rd[0] and b.dominates(rd[0].ret, rle.node)
+    okp = len(rd) == 1 and len(st) == 1 and q.sem(b, st[0].args[1]).kind == 'call' and q.sem(b, st[0].args[1]).cs is rd[0] and (rle is not None and b.dominates(rd[0].ret, rle.node))
     c.ob('payload-then-crc', okp, 'the PDU bytes are read (checked) into the frame and the CRC is read after them', '', rle.loc())
     # state reset on success
     stw = [(i, s) for i, s in b.assigns() if s['pl']['p'] and s['pl']['p'][-1].endswith(':state')]
